@@ -15,11 +15,13 @@ import Driver.Ops.C12
 import Driver.Ops.C13
 import Driver.Ops.C14
 import Driver.Ops.C15
+import Driver.Ops.C16
 import Driver.Ops.C17
 import Driver.Ops.C18
 import Driver.Ops.C19
 import Driver.Ops.C20
 import Driver.Ops.Std
+import Driver.Ops.Sites
 namespace ZVD
 
 def allOps : OpTable :=
@@ -39,11 +41,13 @@ def allOps : OpTable :=
   ++ opsC13
   ++ opsC14
   ++ opsC15
+  ++ opsC16
   ++ opsC17
   ++ opsC18
   ++ opsC19
   ++ opsC20
   ++ opsStd
+  ++ opsSites
 
 def dispatch (op : String) (a : Args) : Except String String :=
   match allOps.find? (·.1 == op) with
